@@ -39,6 +39,9 @@ pub mod oneshot {
         // never waits: either nothing yet / closed, or the value sent on the paired sender
         #[verifier::external_body]
         pub fn try_recv(&mut self) -> (r: Result<V, TryRecvError>) ensures r is Ok ==> delivered(*old(self), r->Ok_0) { unimplemented!() }
+        // whether a value is waiting right now: an arbitrary answer
+        #[verifier::external_body]
+        pub fn is_empty(&self) -> bool { unimplemented!() }
     }
 }
 '''
@@ -66,6 +69,9 @@ ITEMS = [
             r.rx is Some && r.data is None,
             oneshot::paired(r.tx->0.slot->tx, r.rx->0.rx),
          """),
+    dict(kind="fn", file=S, impl=_SLOT, name="has_data", ret="r", label="Slot::has_data",
+         closures={1: dict(params="waiting: &Waiting<T::Closed>", ret="(b: bool)")},
+         ensures="self.data is Some ==> r,"),
     dict(kind="fn", file=S, impl=_SLOT, name="open", ret="r", label="Slot::open",
          ensures="""
             // C13: a slot can be opened at most once - the guard is handed out the first time only
